@@ -103,6 +103,27 @@ def gen_mesh(rng):
     return {"k": "c15.mesh", "verts": verts, "faces": faces, "n": rng.choice([1, 20, 100]), "spacing": rng.choice([0.2, 0.5, 0.5, 1.0, 5.0]), "radius": rng.choice([0.3, 0.6]), "kind": kind}
 
 
+def gen_mesh_areas(rng):
+    """disjoint triangles of different areas, one of them possibly without area (three collinear vertices): the uniform sample
+    must hit the faces in proportion to their areas"""
+    verts, faces = [], []
+    nf = rng.choice([3, 4, 5])
+    zero_at = rng.choice([None, 0, 0, 1, nf - 1])
+    for i in range(nf):
+        c = [6.0 * i, rng.uniform(-1, 1), rng.uniform(-1, 1)]
+        if i == zero_at:
+            # exactly collinear in binary64: dyadic coordinates
+            c = [round(x * 1024) / 1024 for x in c]
+            d = [round(rng.uniform(-1, 1) * 512) / 512 for _ in range(3)]
+            tri = [[c[j] + t * d[j] for j in range(3)] for t in (0.0, 0.5, 1.0)]
+        else:
+            sz = rng.choice([0.3, 1.0, 2.0])
+            tri = [[c[j] + rng.uniform(-sz, sz) for j in range(3)] for _ in range(3)]
+        verts += tri
+        faces.append([3 * i, 3 * i + 1, 3 * i + 2])
+    return {"k": "c15.mesh", "verts": verts, "faces": faces, "n": 3000, "spacing": 5.0, "radius": 0.6, "kind": "areas", "zero_at": zero_at}
+
+
 def gen_hull(rng):
     kind = rng.choice(["random", "collinear", "dup", "circle", "reversed"])
     n = rng.choice([3, 4, 8, 30, 100])
@@ -135,6 +156,8 @@ def generate(rng, tier):
         out += [gen_kd(rng, 2), gen_kd(rng, 3), gen_poisson(rng, 2), gen_poisson(rng, 3), gen_hull(rng)]
     for _ in range(n // 2):
         out.append(gen_mesh(rng))
+    for _ in range(n // 6):
+        out.append(gen_mesh_areas(rng))
     for c in out:
         if c["k"].startswith("c15.kd"):
             c["k_"] = c["kcount"]
@@ -301,9 +324,24 @@ def oracle(c, r):
                     break
         if len(r["uniform"]) != c["n"]:
             yield ("sample-count", "sample_uniform(%d) returned %d points" % (c["n"], len(r["uniform"])))
+        elif c["kind"] == "areas":
+            # faces are hit in proportion to area (the triangles are far apart: the face of a sample is the nearest one)
+            areas = [0.5 * math.sqrt(dot(*(2 * [cross(sub(t[1], t[0]), sub(t[2], t[0]))]))) for t in tris]
+            tot = sum(areas)
+            cnt = [0] * len(tris)
+            for p, _ in r["uniform"]:
+                cnt[min(range(len(tris)), key=lambda i: tri_dist(p, *tris[i]))] += 1
+            for i, a in enumerate(areas):
+                pr = a / tot
+                sd = math.sqrt(c["n"] * pr * (1 - pr))
+                if abs(cnt[i] - c["n"] * pr) > 6 * sd + 3:
+                    yield ("sample-proportion", "sample_uniform(%d) on triangles of areas %r hit face %d %d times, in proportion to area that is %.1f (+- %.1f)" % (
+                        c["n"], [round(x, 4) for x in areas], i, cnt[i], c["n"] * pr, sd))
+                    break
         # dense: every face is represented (its centre or lattice origin), spacing respected between lattice neighbours is not demanded
-        if len(r["dense"]) < len(faces):
-            yield ("sample-dense-cover", "sample_dense(%r) returned %d points for %d faces" % (c["spacing"], len(r["dense"]), len(faces)))
+        with_area = sum(1 for nm in norms if nm is not None)
+        if len(r["dense"]) < with_area:
+            yield ("sample-dense-cover", "sample_dense(%r) returned %d points for %d faces with area" % (c["spacing"], len(r["dense"]), with_area))
         pp = [p for p, _ in r["poisson"]]
         if r.get("kd_bad") is not None:
             b = r["kd_bad"]
